@@ -4,9 +4,8 @@ open Nitime.C11.Props
 #print axioms lwr_length
 #print axioms lwr_solves
 #print axioms lwr_equivariant
-#print axioms marEst_intended_order
-#print axioms marEst_current_partial
-#print axioms marEst_current_counterexample
+#print axioms marEst_order
+#print axioms marEst_is_lwr
 #print axioms lwr_scalar_is_LD
 #print axioms crosscov_is_lagged_average
 #print axioms autocov_zero_hermitian
